@@ -116,8 +116,10 @@ func (p *Parser) parseNode(node, parent *yaml.Node, group *Group, offsetLine, of
 		for _, n := range unpackNodes(node) {
 			if ret, isEmpty := parseRule(n, offsetLine, offsetColumn, contentLines); !isEmpty {
 				group.Rules = append(group.Rules, ret)
-			} else {
+			} else if n.Alias == nil {
 				// Not a rule, but rules might be nested deeper inside this element.
+				// Aliases are not followed: what they point at is visited where it is
+				// defined, and an alias can point at one of its own parents.
 				groups = append(groups, p.parseNode(n, node, nil, offsetLine, offsetColumn, contentLines)...)
 			}
 		}
